@@ -258,13 +258,104 @@ def rn3(prog):
         elif f.name in UNIQUE_OR_EXCEPTIONS:
             ok, why = True, UNIQUE_OR_EXCEPTIONS[f.name]
         else:
+            part = _binary_partition(prog, f, sites[0])
+            if part is not None:
+                # a two-element node {(p, x), (¬p, y)} written out in place: the primes partition by construction; it is
+                # compressed and trimmed iff x ≠ y, which the operands decide
+                v, why = part
+                out.append(inst("RN", "%s:RN3:unique_or-caller" % f.npath, v, f, sites[0].line, why))
+                continue
             ok, why = False, ("%s (line %d) hands an element list straight to unique_or, which sorts and interns but neither "
                               "trims nor compresses: equal subs / a single ⊤ prime would be stored as a distinct node; "
                               "go through canonicalize" % (f.name, sites[0].line))
         out.append(inst("RN", "%s:RN3:unique_or-caller" % f.npath, OK if ok else VIOLATION, f, sites[0].line, why))
     if n_callers < 3:
         raise CheckerError("RN3: only %d callers of unique_or found (expected canonicalize ×2, and_indep)" % n_callers)
+    # primes are non-false: an element whose prime is *computed* (a conjunction of two primes, a conditioned prime) can
+    # be ⊥ and is only pushed when that very value has been tested; nothing downstream (compress, the trimming base
+    # cases, unique_or) removes an element with a false prime
+    n_p = 0
+    for f in prog.lib_fns:
+        if not f.npath.startswith("builder::sdd") or "::test" in f.npath or not any(b["term"]["k"] == "call" for b in f.blocks):
+            continue
+        te = f.terms
+        k = 0
+        for cs in te.calls:
+            if cs.callee.name != "push" or len(cs.args) != 2:
+                continue
+            v = strip(cs.args[1])
+            if not (mir.is_call(v, "new") and "SddAnd" in v[1].key() and len(v[2]) == 2):
+                continue
+            p = strip(v[2][0])
+            if not (p[0] == "call" and p[1].name in ("and", "or", "condition", "ite", "negate", "exists", "compose", "xor", "iff")):
+                continue      # the prime of an existing node, a literal: non-false already
+            k += 1
+            n_p += 1
+            tested = [strip(c[2][-1]) for c, val, _, _ in te.facts_at(cs.bb)
+                      if mir.is_call(strip(c), "is_false") and val == "0" for c in [strip(c)]]
+            key = "%s:RN3:nonfalse-prime#%d" % (f.npath, k)
+            if p in tested:
+                out.append(inst("RN", key, OK, f, cs.line, "the computed prime %s is pushed only after is_false(it) failed" % show(p)[:50]))
+            else:
+                inner = [q for q in tested if any(x == q for x in mir.subterms(p))]
+                other = [c for c, val, _, _ in te.facts_at(cs.bb) if any(x == p for x in mir.subterms(c))]
+                if other and not inner:
+                    out.append(inst("RN", key, UNDECIDED, f, cs.line, "the computed prime is tested by %s, which the rule does not read" % show(other[0])[:60]))
+                    continue
+                out.append(inst("RN", key, VIOLATION, f, cs.line,
+                                ("the element's prime is %s, but the emptiness test in front of the push is on %s — the value "
+                                 "before the operation, which is never false: an element whose prime became ⊥ is kept, and the "
+                                 "node that is interned has a false prime (two pointers for one function)"
+                                 % (show(p)[:60], show(inner[0])[:50])) if inner else
+                                ("the element's prime %s is computed and pushed without having been tested against ⊥: an empty "
+                                 "prime stays in the node" % show(p)[:60])))
+    if n_p < 3:
+        out.append(inst("RN", "RN3:nonfalse-prime", UNDECIDED, None, None, "only %d computed primes found (expected >= 3)" % n_p))
     return out
+
+
+def _binary_partition(prog, f, site):
+    """the list handed to unique_or is the literal vec![SddAnd::new(p, x), SddAnd::new(neg(p), y)]: (verdict, reason)"""
+    te = f.terms
+    if len(site.args) < 2:
+        return None
+    anchors = [x for x in mir.subterms(site.args[1]) if mir.is_call(x, "new_uninit")]
+    elems = None
+    for (_, pt, val, _) in te.stores:
+        v_ = strip(val)
+        if anchors and any(x in anchors for x in mir.subterms(pt)) and v_[0] == "agg" and v_[1] == "array":
+            elems = [strip(e) for e in v_[4]]
+    if not elems or len(elems) != 2 or not all(mir.is_call(e, "new") and len(e[2]) == 2 for e in elems):
+        return None
+    (p1, x), (p2, y) = [(strip(e[2][0]), strip(e[2][1])) for e in elems]
+    if not ((mir.is_call(p2, "neg") and strip(p2[2][-1]) == p1) or (mir.is_call(p1, "neg") and strip(p1[2][-1]) == p2)):
+        return None
+
+    def const(t):
+        return mir.is_call(t, "false_ptr") or mir.is_call(t, "true_ptr") or (t[0] == "agg" and t[3] in ("PtrTrue", "PtrFalse"))
+
+    def distinct(u, w):
+        u, w = strip(u), strip(w)
+        if (mir.is_call(u, "neg") and strip(u[2][-1]) == w) or (mir.is_call(w, "neg") and strip(w[2][-1]) == u):
+            return True       # t and ¬t
+        if const(u) != const(w):
+            return True       # a constant and an operand the caller's base cases have shown non-constant
+        return False
+    if distinct(x, y):
+        return OK, "%s builds the two-element node {(p, x), (¬p, y)} in place with x, y distinct by construction (%s / %s)" % (f.name, show(x)[:30], show(y)[:30])
+    if x[0] == "param" and y[0] == "param":
+        # the subs are operands of the helper: look at what its callers pass
+        sites = []
+        for g in prog.lib_fns:
+            if g is f or not any(b["term"]["k"] == "call" for b in g.blocks):
+                continue
+            for cs in g.terms.calls:
+                if cs.callee.name == f.name and f in prog.resolve(cs.callee) and len(cs.args) >= max(x[1], y[1]):
+                    sites.append((g, cs))
+        if sites and all(distinct(cs.args[x[1] - 1], cs.args[y[1] - 1]) for g, cs in sites):
+            return OK, ("%s builds {(p, x), (¬p, y)} in place; every caller (%s) passes subs that differ by construction"
+                        % (f.name, ", ".join(sorted({g.name for g, _ in sites}))))
+    return UNDECIDED, "%s builds {(p, x), (¬p, y)} in place; whether x ≠ y (compressed) is up to its callers" % f.name
 
 
 # callers of unique_or other than `canonicalize`, each confirmed by reading
